@@ -62,6 +62,7 @@ type sPool struct {
 	LimitCPU   string            `json:"limit_cpu,omitempty"`
 	LimitNodes string            `json:"limit_nodes,omitempty"`
 	LimitMem   string            `json:"limit_memory,omitempty"`
+	NoLimits   bool              `json:"no_limits,omitempty"` // spec.limits absent (the other pools get test.NodePool's default cpu: 2000)
 	Startup    bool              `json:"startup_taint,omitempty"`
 	Types      []jIT             `json:"instance_types"`
 }
@@ -237,6 +238,7 @@ func genPoolSpec(r *kit.Rand, name string, features bool) poolSpec {
 			sp.LimitMem = kit.Pick(r, []string{"4Gi", "64Gi", "1Ti"}) // every type has 64Gi
 		}
 	}
+	sp.NoLimits = sp.LimitCPU == "" && sp.LimitNodes == "" && sp.LimitMem == "" && r.Chance(1, 3)
 	sp.Startup = r.Chance(1, 8) // startupTaints are not scheduling taints: they must not keep the pod off the pool
 	switch {
 	case r.Chance(1, 16):
@@ -371,6 +373,9 @@ func buildWorldOpts(specs []poolSpec, o worldOpts) *world {
 			obj.Status.Conditions = nil
 		case "deleting":
 			obj.Finalizers = append(obj.Finalizers, "verif/hold")
+		}
+		if sp.NoLimits {
+			obj.Spec.Limits = nil
 		}
 		kit.Apply(ctx, w.cl, obj)
 		if sp.State == "deleting" {
@@ -668,7 +673,7 @@ func runSolve(c *kit.Ctx, r *kit.Rand, w *world, pods []*corev1.Pod, jpods []sPo
 	w.c = c
 	for _, p := range w.pools {
 		c.Count("world:pool-state=" + p.State)
-		c.Count(fmt.Sprintf("world:pool-fields:limit=%s,startupTaint=%v,minValues=%v", lo.Ternary(p.LimitCPU != "", "cpu", lo.Ternary(p.LimitNodes != "", "nodes", lo.Ternary(p.LimitMem != "", "memory", "default"))), p.Startup, p.MinValues != nil))
+		c.Count(fmt.Sprintf("world:pool-fields:limit=%s,startupTaint=%v,minValues=%v", lo.Ternary(p.LimitCPU != "", "cpu", lo.Ternary(p.LimitNodes != "", "nodes", lo.Ternary(p.LimitMem != "", "memory", lo.Ternary(p.NoLimits, "absent", "default")))), p.Startup, p.MinValues != nil))
 	}
 	c.Count("world:options:" + w.optString() + fmt.Sprintf(" reservedStrict=%v", w.strict))
 	for _, p := range jpods {
@@ -880,6 +885,58 @@ func (w *world) setReservations(rem map[string]int) func() {
 			o.ReservationCapacity = c
 		}
 	}
+}
+
+// sharedCatalogBatch: a NodePool WITHOUT limits whose catalogue is larger than MaxInstanceTypes, every type offered as
+// spot and as on-demand with OPPOSITE price orders, and a batch of pods that exclude no instance type, each needs a
+// NodeClaim of its own, and pin different capacity types. The claims of the pool rank the same catalogue differently;
+// Results.TruncateInstanceTypes runs over ALL claims before any of them is judged, so a claim whose truncated view is
+// disturbed by the sorting of a later claim is seen.
+func sharedCatalogBatch(c *kit.Ctx, r *kit.Rand, fixed bool) {
+	nTypes := r.Range(5, 8)
+	mk := func(pool string) []*cloudprovider.InstanceType {
+		var its []*cloudprovider.InstanceType
+		for i := 0; i < nTypes; i++ {
+			spot, od := float64(i+1)*0.25, float64(nTypes-i)*0.5 // spot cheapest first, on-demand cheapest last
+			if !fixed && r.Chance(1, 5) {
+				spot = kit.Pick(r, prices)
+			}
+			var ofs []cloudprovider.Offering
+			for _, z := range zones {
+				ofs = append(ofs,
+					cloudprovider.Offering{Available: true, Price: spot, Requirements: scheduling.NewLabelRequirements(map[string]string{v1.CapacityTypeLabelKey: v1.CapacityTypeSpot, corev1.LabelTopologyZone: z})},
+					cloudprovider.Offering{Available: true, Price: od, Requirements: scheduling.NewLabelRequirements(map[string]string{v1.CapacityTypeLabelKey: v1.CapacityTypeOnDemand, corev1.LabelTopologyZone: z})})
+			}
+			its = append(its, fake.NewInstanceType(fmt.Sprintf("%s-t%d-c4", pool, i), fake.WithOfferings(ofs...),
+				fake.WithResources(corev1.ResourceList{corev1.ResourceCPU: qty("4"), corev1.ResourceMemory: qty("64Gi"), corev1.ResourcePods: qty("20")})))
+		}
+		return its
+	}
+	perm := shuffled(r, len(poolNames))
+	specs := []poolSpec{{sPool{Name: poolNames[perm[0]], Weight: lo.ToPtr(int32(50)), State: "ready", NoLimits: fixed || r.Chance(3, 4)}, mk(poolNames[perm[0]])}}
+	if !fixed && r.Bool() {
+		specs = append(specs, poolSpec{sPool{Name: poolNames[perm[1]], Weight: lo.ToPtr(int32(1)), State: "ready", NoLimits: r.Bool()}, mk(poolNames[perm[1]])})
+	}
+	w := buildWorld(specs, true)
+	var pods []*corev1.Pod
+	var sps []sPod
+	for k, n := 0, r.Range(2, 4); k < n; k++ {
+		ct := capacityTypes[k%2]
+		if !fixed && r.Chance(1, 6) {
+			ct = ""
+		}
+		sp := sPod{Name: fmt.Sprintf("p%d", k), CPU: "3"}
+		opts := test.PodOptions{ObjectMeta: metav1.ObjectMeta{Name: sp.Name, UID: types.UID("uid-" + sp.Name)},
+			ResourceRequirements: corev1.ResourceRequirements{Requests: corev1.ResourceList{corev1.ResourceCPU: qty(sp.CPU)}}}
+		if ct != "" {
+			sp.NodeSelector = map[string]string{v1.CapacityTypeLabelKey: ct}
+			opts.NodeSelector = sp.NodeSelector
+		}
+		pod := test.UnschedulablePod(opts)
+		kit.Apply(w.ctx, w.cl, pod)
+		pods, sps = append(pods, pod), append(sps, sp)
+	}
+	runSolve(c, r, w, pods, sps, lo.Ternary(fixed, "corpus-shared-catalog", "batch-shared-catalog"), r.Range(2, nTypes-1))
 }
 
 // reservedBatch: a heavier NodePool whose instance type has a reserved offering with capacity 1-2 next to on-demand
@@ -1097,6 +1154,14 @@ func (w *world) pipeline(c *kit.Ctx, results sched.Results, kind string, maxType
 	}
 	defer func(old int) { sched.MaxInstanceTypes = old }(sched.MaxInstanceTypes)
 	sched.MaxInstanceTypes = maxTypes
+	perPool := map[string]int{}
+	for _, nc := range results.NewNodeClaims {
+		perPool[nc.NodePoolName]++
+	}
+	for _, n := range perPool {
+		c.Count(fmt.Sprintf("pipeline:%s:claims-of-one-pool=%s", kind, lo.Ternary(n >= 2, ">=2", "1")))
+	}
+	// as Provisioner.Schedule does: truncate ALL NodeClaims of the pass first; every claim is judged only afterwards
 	results = results.TruncateInstanceTypes(w.ctx, sched.MaxInstanceTypes)
 	kept := sets.New(results.NewNodeClaims...)
 	for _, p := range pres {
@@ -1127,6 +1192,10 @@ func partSolve(c *kit.Ctx) {
 	corpusReady(c)
 	corpusNoPool(c)
 	limitsBatch(c, c.Rand.Fork(), true)
+	sharedCatalogBatch(c, c.Rand.Fork(), true)
+	for i := 0; i < nBatch/3; i++ {
+		sharedCatalogBatch(c, c.Rand.Fork(), false)
+	}
 	for i := 0; i < nSingle; i++ {
 		r := c.Rand.Fork()
 		w := newWorld(r, true)
